@@ -18,8 +18,11 @@ def split_scenarios(rows):
     return out
 
 
-def validate(ctx, module, cfg, tracefile_name, rows, tag, max_rounds=12, timeout=1800):
-    """returns (accepted_scenarios, rejections[(scenario_rows, line_in_scenario, why, event)])"""
+def validate(ctx, module, cfg, tracefile_name, rows, tag, max_rounds=12, timeout=1800, foreign=None, passive=()):
+    """returns (accepted_scenarios, rejections[(scenario_rows, line_in_scenario, why, event)])
+    foreign(why) -> True for a clause that belongs to another property; if the rejected event is in `passive` (an observation that does
+    not update the trace specification's state) only that event is taken out and the rest of the scenario is still validated, so that a
+    clause of this property later in the same scenario is not masked."""
     d = ctx.specdir()
     scen = split_scenarios(rows)
     rejections = []
@@ -32,7 +35,7 @@ def validate(ctx, module, cfg, tracefile_name, rows, tag, max_rounds=12, timeout
         r = ctx.tlc(module, cfg, workers=1, timeout=timeout, heap="8g", tag="%s_%d" % (tag, rnd), allow_fail=True)
         ctx.cov["states"] += r.distinct
         ctx.cov["transitions"] += r.generated
-        m = re.search(r'<<"REJECTED-AT", (\d+), "((?:[^"\\]|\\.)*)", (".*")>>', r.out)
+        m = re.search(r'<<\s*"REJECTED-AT",\s*(\d+),\s*"((?:[^"\\]|\\.)*)",\s*("(?:[^"\\]|\\.)*")\s*>>', r.out, re.S)
         if m:
             line = int(m.group(1))
             why = m.group(2)
@@ -43,7 +46,10 @@ def validate(ctx, module, cfg, tracefile_name, rows, tag, max_rounds=12, timeout
                 if line <= k + len(s):
                     rejections.append((s, line - k, why, ev))
                     accepted += i
-                    scen = scen[i + 1:]
+                    if foreign and foreign(why) and ev.get("ev") in passive:
+                        scen = [s[:line - k - 1] + s[line - k:]] + scen[i + 1:]
+                    else:
+                        scen = scen[i + 1:]
                     break
                 k += len(s)
             continue
